@@ -44,7 +44,9 @@ package metrics
 //@   callee LG = getter : total
 //@   nopanic
 //@   ensures result != nil && fresh(result) [a-fresh-label-map]
+//@   ensures forall j int :: 0 <= j && j < len(labels) ==> has(result, labels[j]) [every-requested-label-has-an-entry]
 //@   inv loop 1: ctxLabels != nil && fresh(ctxLabels) [map-stays]
+//@   inv loop 1: forall j int :: 0 <= j && j <= rangeindex ==> has(ctxLabels, labels[j]) [an-entry-for-every-label-seen-so-far]
 
 //@ func (PublisherPrometheusMetricsDecorator).Publish
 //@   requires m.pub != nil && m.publishTimeSeconds != nil
